@@ -264,7 +264,7 @@ theorem no_entries_nothing_assumed (opts : IOpts) (st : Store) (h : opts.schemas
     `MarshalJSON` and the entry `{"type":"object","properties":{"lat":{"type":"number"},"lon":{"type":"number"}},
     "required":["lat","lon"]}` (`point_entryAcceptsTree` below).
     Declared types without an entry are expanded and need no hypothesis, as in `infer_sound_table_partial`, which is the
-    special case of entries without subschemas (`entryAcceptsTree_of_leaf`).
+    special case of entries without subschemas (`leaf_entries_are_tree_entries`).
 
     Proof: the clone is a node-by-node copy of the entry (`Go.cloneFuel_sim`, C20) whose subschemas are allocated before
     its root; validity is invariant under the renaming of node ids and blind to descriptions (`Iso.evalFuel_sim` along
@@ -291,6 +291,19 @@ theorem infer_some_table (opts : IOpts) (fuel : Nat) (T : GoType) (st : Store) (
     (h : forType opts fuel T st = .ok (r, st')) : ∃ id, r = some id := by
   obtain ⟨id, hid, _⟩ := inferFuel_modelsTT opts hnfs st fuel T [] st r st' (Ext.refl st) hdom hacc h
   exact ⟨id, hid⟩
+
+/-- entries without subschemas and references — the hypothesis of `infer_sound_table_partial` — are tree entries -/
+theorem leaf_entries_are_tree_entries (opts : IOpts) (st : Store) (T : GoType) (an : Bool)
+    (h : EntriesAccept opts st an T) : EntriesAcceptTree opts st an T :=
+  (entriesAcceptTree_of_leaves opts st).1 T an h
+
+/-- … so `infer_sound_table_partial` is the special case of `infer_sound_table` for such entries -/
+example (opts : IOpts) (fuel : Nat) (T : GoType) (st : Store) (id : NodeId) (st' : Store)
+    (re : String → String → Bool) (hnfs : opts.nullForSlices = true) (hdom : InDomainN T = true)
+    (hacc : EntriesAccept opts st false T) (h : forType opts fuel T st = .ok (some id, st')) (v : GoValue)
+    (hv : HasType T v) (fuel' : Nat) (hf : depth T ≤ fuel') :
+    Spec.valid (specEnvNoRefs st' re) fuel' id (encode T v) = some true :=
+  infer_sound_table opts fuel T st id st' re hnfs hdom (leaf_entries_are_tree_entries opts st T false hacc) h v hv fuel' hf
 
 /-! ### the hypotheses of `infer_sound_named` are satisfiable, and needed (labelled tests)
 
